@@ -74,7 +74,13 @@ if __name__ == "__main__":
         jobs = int(a[a.index("--jobs") + 1]) if "--jobs" in a else 3
         ids = sorted(os.listdir(os.path.join(VERIF, "seeded")))
         ids = [i for i in ids if os.path.isdir(os.path.join(VERIF, "seeded", i))]
+        if "--match" in a:       # only ids containing the given substring; results are merged into RESULTS.json
+            ids = [i for i in ids if a[a.index("--match") + 1] in i]
         out = {}
+        try:
+            out.update(json.load(open(os.path.join(VERIF, "seeded", "RESULTS.json"))))
+        except (OSError, ValueError):
+            pass
         def one(sid):
             r = run_one(sid)
             out[sid] = r
